@@ -41,6 +41,9 @@ func (g *gen) leanType(n ast.Node, t types.Type) string {
 			return g.leanType(n, u.Elem())
 		}
 	case *types.Named:
+		if isNamed(u, "strings", "Builder") {
+			return "Go.Bytes" // a strings.Builder is what has been written to it
+		}
 		if _, ok := u.Underlying().(*types.Struct); ok {
 			return g.structOf(n, u).lean
 		}
@@ -127,6 +130,9 @@ func (g *gen) zero(n ast.Node, t types.Type) string {
 	case *types.Pointer:
 		return g.zero(n, u.Elem())
 	case *types.Named:
+		if isNamed(u, "strings", "Builder") {
+			return "([] : Go.Bytes)"
+		}
 		if st, ok := u.Underlying().(*types.Struct); ok {
 			si := g.structOf(n, u)
 			var fs []string
